@@ -376,6 +376,14 @@ def classify(chain, cuts, segs, res, data_sets) -> Dict[str, List[str]]:
             for c in combo:
                 keys[names[c]] = msgs
             return keys
+    # same defect as C01:util.guess_carried_scalar_type:all-null-column: a string column without any non-null value is typed
+    # float, so a comparison with a string constant RAISES when a segment is run on its own; the composed pipeline may merge
+    # that (overwritten, hence unused) computation away and return.  Narrow: only sequential application raises exactly this
+    # TypeError, and an input table really has an all-null string column.
+    if all(k == "result" and "only sequential application raises TypeError: can't compare <class 'float'> to <class 'str'>" in d for _, k, d in res["fails"]):
+        if any(len(tab[c]) > 0 and all(v is None for v in tab[c]) for _, data in data_sets for t, tab in data.items() if t in C.SCHEMAS for c in tab if C.SCHEMAS[t].get(c) == "str"):
+            keys["%s:util.guess_carried_scalar_type:all-null-column" % PID] = msgs
+            return keys
     kinds = sorted(set((k, d.split(":")[0] if k == "raise" else "") for _, k, d in res["fails"]))
     keys["%s:unclassified:%s" % (PID, O.uhash([kinds, [s[0] for s in chain["steps"][cuts[0] :]]]))] = msgs
     return keys
@@ -388,8 +396,8 @@ def classify(chain, cuts, segs, res, data_sets) -> Dict[str, List[str]]:
 
 def scope(tier: str) -> Dict[str, Any]:
     if tier == "quick":
-        return {"per_case": 2, "d3_shard": 8, "d4_shard": 0, "max_rows": 3, "cap": 24}
-    return {"per_case": 3, "d3_shard": 1, "d4_shard": 80, "max_rows": 3, "cap": 40}
+        return {"per_case": 2, "d3_shard": 16, "d4_shard": 0, "max_rows": 3, "cap": 24}
+    return {"per_case": 3, "d3_shard": 2, "d4_shard": 160, "max_rows": 3, "cap": 40}
 
 
 def make_cases(tier: str, seed: int) -> List[Dict[str, Any]]:
